@@ -1,6 +1,7 @@
 import GoaVerif.Prelude.Hex
 import GoaVerif.Model.TypeHash
 import GoaVerif.Model.DupHeap
+import GoaVerif.Lemmas.DupEq
 /-! Line-protocol front end for the C13 hash model (graph format: see harness/cmd/rtexpr). -/
 namespace GoaVerif.Drive.TypeHash
 open GoaVerif GoaVerif.TypeHash
@@ -130,6 +131,20 @@ def sharedKinds (heap' : List Cell) (n0 root fuel : Nat) : List String :=
         go f (if x < n0 then todo else next ++ todo) (x :: seen) acc'
   go fuel [root] [] []
 
+open GoaVerif.DupHeap in
+/-- a printable form of an observation (the trees have no decidable equality of their own) -/
+partial def showTree : Tree → String
+  | .cut => "…" | .bad => "!"
+  | .prim n => "p:" ++ n
+  | .arr e => "[" ++ showTree e ++ "]"
+  | .map k e => "{" ++ showTree k ++ ":" ++ showTree e ++ "}"
+  | .obj fs => "o(" ++ ",".intercalate (fs.map fun f => f.1 ++ "=" ++ showTree f.2) ++ ")"
+  | .union n vs => "u" ++ n ++ "(" ++ ",".intercalate (vs.map fun f => f.1 ++ "=" ++ showTree f.2) ++ ")"
+  | .user id a => "t:" ++ id ++ "<" ++ showTree a ++ ">"
+  | .att t m v => "a(" ++ showTree t ++ ";" ++ (match m with | some x => showTree x | none => "-") ++ ";" ++
+      (match v with | some x => showTree x | none => "-") ++ ")"
+  | .blob s => "b:" ++ s
+
 def handle : List String → Option String
   | "hash" :: f :: root :: rest => do
     let fl ← f.toNat?
@@ -145,7 +160,11 @@ def handle : List String → Option String
     match GoaVerif.DupHeap.dupTop fuel heap rt with
     | some (r, heap') =>
       let ks := sharedKinds heap' heap.length r (4 * heap'.length + 4)
-      some ("dup_shared=[" ++ ",".intercalate ks ++ "] cells=" ++ toString (heap'.length - heap.length))
+      -- the hypotheses of `dup_equal` and the equality it proves, observed to depth 7
+      let hyp := (if GoaVerif.DupHeap.closedB heap then "1" else "0") ++ (if GoaVerif.DupHeap.uniqueIdsB heap then "1" else "0")
+      let eq := showTree (GoaVerif.DupHeap.obs 7 heap' r) == showTree (GoaVerif.DupHeap.obs 7 heap rt)
+      some ("dup_shared=[" ++ ",".intercalate ks ++ "] cells=" ++ toString (heap'.length - heap.length) ++
+        " eq_hyp=" ++ hyp ++ " copy_equal=" ++ (if eq then "1" else "0"))
     | none => some "dup=none"
   | _ => none
 
